@@ -217,6 +217,7 @@ def run_case(rng, tier, res):
         """busy fell (or bound hit): judge the operation as a whole."""
         k = op["kind"]
         res.event("ops_completed")
+        st["last_done"] = None
         g = b.get
         ctx = "op#%d %s accepted cyc=%d done cyc=%d period=%d stretch=%s" % (op["i"], k, op["t_acc"], cyc, period, op["stretch"][:10])
         if op["bad"]:
@@ -309,17 +310,6 @@ def run_case(rng, tier, res):
         op = st["op"]
         prev = st["prev"]
 
-        # ---- completion: busy sampled low with an operation open
-        if op is not None and not busy:
-            finish(op, cyc, "busy_low")
-            op = st["op"] = None
-            st["idle_ref"] = (m_scl, m_sda)
-        elif op is not None and cyc - op["t_acc"] > OP_BOUND + 2 * sum(op["stretch"]):
-            if not op["bad"]:
-                res.violation("busy_stuck_high_operation_never_finishes", "op#%d %s accepted cyc=%d pulses=%d" % (op["i"], op["kind"], op["t_acc"], op["rises"]))
-            op["bad"] = True
-            b.stop()
-
         # ---- bus events of this cycle
         if prev is not None:
             pscl, psda, pm_scl, pm_sda = prev
@@ -382,6 +372,17 @@ def run_case(rng, tier, res):
                 if ld is not None and ((ld[0] == "write" and g(dut.ack_o) != ld[1]) or (ld[0] == "read" and g(dut.data_o) != ld[2])):
                     res.violation("result_changes_while_idle", "cyc=%d %s" % (cyc, ld))
                     st["last_done"] = None
+        # ---- completion: busy sampled low with an operation open
+        if op is not None and not busy:
+            finish(op, cyc, "busy_low")
+            op = st["op"] = None
+            st["idle_ref"] = (m_scl, m_sda)
+        elif op is not None and cyc - op["t_acc"] > OP_BOUND + 2 * sum(op["stretch"]):
+            if not op["bad"]:
+                res.violation("busy_stuck_high_operation_never_finishes", "op#%d %s accepted cyc=%d pulses=%d" % (op["i"], op["kind"], op["t_acc"], op["rises"]))
+            op["bad"] = True
+            b.stop()
+
         st["prev"] = (scl, sda, m_scl, m_sda)
 
         # ---- acceptance
